@@ -295,7 +295,30 @@ class Exec:
         self.used_assumptions.add('MUL-abstract')
         return t
 
+    def real_div(self, x, y):
+        """real division; abstracted to DIVR(x, y) in 'abstract' mode when the divisor is not a literal"""
+        if getattr(self.c, 'nonlinear', 'native') != 'abstract':
+            return x / y
+        sy = z3.simplify(y)
+        if z3.is_rational_value(sy) or z3.is_int_value(sy):
+            return x / y
+        self.div_used = True
+        self.used_assumptions.add('MUL-abstract')
+        return Z.DIVR(z3.simplify(x), sy)
+
     def mul_facts(self):
+        out = []
+        if getattr(self, 'div_used', False):
+            x, y = z3.Reals('x!div y!div')
+            t = Z.DIVR(x, y)
+            out.append(Z.forall([x, y], z3.And(Z.div_facts(x, y, t)), patterns=[t], qid='DIV_facts'))
+        if not self.mul_terms:
+            return out
+        x, y = z3.Reals('x!mul y!mul')
+        t = Z.MUL(x, y)
+        return out + [Z.forall([x, y], z3.And(Z.mul_facts(x, y, t)), patterns=[t], qid='MUL_facts')]
+
+    def _unused_mul_facts(self):
         if not self.mul_terms:
             return []
         x, y = z3.Reals('x!mul y!mul')
@@ -705,7 +728,7 @@ class Exec:
             if s2 is None:
                 return []
             s3 = self.guard(s2, Z.num(b) != 0, 'ZeroDivisionError', 'division by zero')
-            return [] if s3 is None else [(s3, Z.mk_r(Z.num(a) / Z.num(b)))]
+            return [] if s3 is None else [(s3, Z.mk_r(self.real_div(Z.num(a), Z.num(b))))]
         if isinstance(op, (ast.FloorDiv, ast.Mod)):
             s2 = self.guard(st, bothnum, 'TypeError', '// or % on non-numbers')
             if s2 is None:
